@@ -272,6 +272,32 @@ def mode_unit(args):
     blocks += ([[a, b] for a in alpha[:8] for b in alpha[:8]] if full else [[a, b] for a in alpha[:4] for b in alpha[:4]])
     P.blocks = blocks
     stats["sf_sensitive_probes"] = [mn_of[h] for h in sensitive]
+    # re-execution: the same decoded instruction object executed again must give the same map
+    # (an instruction object is shared by every pass over its block)
+    from amoco.cas.mapper import mapper as _mapper2
+    from amoco.cas.expressions import cst as _cst2
+    stats["reexecutions"] = 0
+    for h, mn, fp in cands:
+        restore(cpu, objs, G0)
+        i = decode(cpu, mode, h)
+        if i is None:
+            continue
+        try:
+            vals0, base0 = c02.state_values(regs, pcname, 0)
+            psz = regs[pcname].size if pcname in regs else 32
+            i.address = _cst2(vals0.get(pcname, base0), psz)
+            rs = []
+            for _k in range(3):
+                restore(cpu, objs, G0)
+                rs.append(P.evaluate(_mapper2([i])))
+            stats["reexecutions"] += 1
+        except Exception:
+            continue
+        if rs[0] is not None and (rs[1] != rs[0] or rs[2] != rs[0]):
+            bad = 1 if rs[1] != rs[0] else 2
+            fails.append(Failure((isa, mname, "re-execution", mn), "%s %s: executing the same decoded instruction object %s [%s] again (pass %d) gives another map: %s" % (
+                isa, mname, h, mn, bad + 1, first_diff(rs[0], rs[bad])), {"isa": isa, "mode": mode, "history": [["reexec", h]], "probe": [h], "kind": "re-execution"}, rank=1).to_json())
+    restore(cpu, objs, G0)
     # results and map objects in the initial state
     base_maps, base_res = [], []
     for b in blocks:
